@@ -5346,7 +5346,7 @@ class Restreamed(Subconstruct):
             stream2.close()
         except Exception as e:
             raise StreamError("restreamed stream failed to close, %s" % (e,), path=path)
-        return obj
+        return buildret
 
     def _sizeof(self, context, path):
         if self.sizecomputer is None:
